@@ -180,7 +180,9 @@ func sCall(n *simple.Nfs, o sOp) sRes {
 		r := n.NFSPROC3_READ(nt.READ3args{File: fh, Offset: nt.Offset3(o.Off), Count: nt.Count3(o.Cnt)})
 		return sRes{OK: r.Status == nt.NFS3_OK, Data: r.Resok.Data, Eof: r.Resok.Eof, Cnt: uint32(r.Resok.Count)}
 	case "write":
-		r := n.NFSPROC3_WRITE(nt.WRITE3args{File: fh, Offset: nt.Offset3(o.Off), Count: nt.Count3(o.Cnt), Stable: nt.Stable_how(o.Which % 3), Data: append([]byte{}, o.Data...)})
+		buf := append([]byte{}, o.Data...)
+		r := n.NFSPROC3_WRITE(nt.WRITE3args{File: fh, Offset: nt.Offset3(o.Off), Count: nt.Count3(o.Cnt), Stable: nt.Stable_how(o.Which % 3), Data: buf})
+		scribble(buf) // the request buffer belongs to the transport again once the reply is out
 		return sRes{OK: r.Status == nt.NFS3_OK, Cnt: uint32(r.Resok.Count)}
 	case "setattr":
 		var a nt.Sattr3
